@@ -362,6 +362,7 @@ inductive Kind where
   | zip (a b : Ref)
   | join (a b : Ref) (v : JVar) (ship : Ship) (f1 : KeyFn) (k1 : Int) (f2 : KeyFn) (k2 : Int)
   | kjoin (a b : Ref) (v : JVar)
+  | kmerge (a b : Ref)
   | route (a : Ref) (ps : List (PredFn × Int))
   | replay (a : Ref) (side : Option Ref) (l : LoopSpec)
   | iterate (a : Ref) (side : Option Ref) (l : LoopSpec)
@@ -466,6 +467,7 @@ def seqSem (n : Node) : Sem (List V) :=
   | .zip a b => .bin a b false false (List.zipWith V.pair)
   | .join a b v ship f1 c1 f2 c2 => .bin a b false (ship == .hash) (joinS v (f1.eval c1) (f2.eval c2))
   | .kjoin a b v => .bin a b true true (keyedJoinS v)
+  | .kmerge a b => .bin a b true true (· ++ ·)
   | .route a ps => .multi a ((List.range ps.length).map fun j => routeS ps j)
   | .replay a Option.none l => .un a false false fun x => [V.int (l.run false loopFuel [] x).1]
   | .replay a (Option.some b) l => .bin a b false false fun x sd => [V.int (l.run false loopFuel sd x).1]
@@ -660,6 +662,7 @@ def parSem (cfg : Cfg) (o : Orc) (n : Node) : Sem D :=
         List.zipWith (joinS v (f1.eval c1) (f2.eval c2)) x' y'
       | .bcast => x.map fun l => joinS v (f1.eval c1) (f2.eval c2) l (permBy mg y.flatten)
   | .kjoin a b v => .bin a b true true fun x y => List.zipWith (keyedJoinS v) x y
+  | .kmerge a b => .bin a b true true fun x y => (zipAppend x y).map (permBy mg)
   | .route a ps => .multi a ((List.range ps.length).map fun j => List.map (routeS ps j))
   | .replay a Option.none l => .un a false false fun d => [[V.int (l.parRun false nU o n.id loopFuel [[]] d).1]]
   | .replay a (Option.some b) l => .bin a b false false fun d sd =>
